@@ -203,12 +203,22 @@ def check_route(ctx, case):
             return res.violate('route', 'library output call failed: %s' % rs[2]['err'], case=case)
         got = open(os.path.join(d, 'libout.' + outext), 'rb').read() if outext else out_bytes(rs[2])
     else:
+        import random
+        rr = random.Random(json.dumps(case, sort_keys=True, default=str))
         argv = [ctx.bin('bkl')]
+        parts = []
         if flag:
-            argv += ['-f', flag]
+            parts.append(rr.choice([['-f', flag], ['-f' + flag], ['--format=' + flag], ['--format', flag]]))
         if outext:
-            argv += ['-o', 'out.' + outext]
-        argv.append('in.' + named)
+            parts.append(rr.choice([['-o', 'out.' + outext], ['--output=out.' + outext], ['-oout.' + outext], ['--output', 'out.' + outext]]))
+            if rr.random() < 0.4:
+                with open(os.path.join(d, 'out.' + outext), 'w') as f:     # an existing, longer file must be replaced completely
+                    f.write('stale content that is longer than any output ' * 40)
+        parts.append([rr.choice(['in.' + named, './in.' + named])])
+        if rr.random() < 0.3:
+            rr.shuffle(parts)
+        for p_ in parts:
+            argv += p_
         r = cli(argv, cwd=d)
         res.execs += 1
         if r.rc != 0:
